@@ -71,21 +71,12 @@ def lossless(ck, src, dst):
     return None
 
 
-def run(prog, rep):
-    rep.rule('R1.1', 'save paths: the parameter "value" of every archive-scope SerializeValue / SaveValue reaches the back end through '
-                     'value-preserving conversions only', floor=20)
-    rep.rule('R1.2', 'LoadObject / SaveObject: context(options) -> archive(data, context) -> SplitAndSerialize -> Finalize -> OnFinishSerialization, '
-                     'unconditional and in this order', floor=8)
-    rep.rule('R1.3', 'XML adapter: the load side accepts an element without children as the empty value of the requested kind '
-                     '(string, array, object) - the shape the save side emits for it', floor=5)
-    rep.rule('R1.4', 'MsgPack: every first byte a write overload can emit has an accepting path in the read method of the same type, both readers', floor=150)
-    rep.rule('R1.5', 'JSON adapter: Accept() results are consumed; ParseStream over AutoUTFInputStream names AutoUTF as source encoding; writers use the target encoding of their stream', floor=9)
-
+def check_save_conversions(prog, rep, rule='R1.1', namespaces=ARCHIVE_NS):
     # ---------------------------------------------------------------- R1.1
     for f in sorted(prog.funcs.values(), key=lambda g: g.id):
         if f.name not in ('SerializeValue', 'SaveValue', 'SaveJsonValue') or not f.sym.get('repo') or f.body is None:
             continue
-        if not f.q.startswith(ARCHIVE_NS):
+        if not f.q.startswith(namespaces):
             continue
         if not f.params or 't' not in f.params[-1]:
             continue
@@ -105,14 +96,28 @@ def run(prog, rep):
             why = lossless(n['ck'], src, dst)
             scope = strip_targs(f.q).replace('BitSerializer::', '')
             if why:
-                rep.finding('R1.1', '%s|%s->%s' % (scope, src, dst), f.loc(n),
+                rep.finding(rule, '%s|%s->%s' % (scope, src, dst), f.loc(n),
                             '%s (save path): the value %s before it is handed to the back end - the document holds a different number'
                             % (scope, why), func=f.id)
             else:
-                rep.ok('R1.1', '%s|%s->%s|%s' % (scope, src, dst, f.loc(n)),
+                rep.ok(rule, '%s|%s->%s|%s' % (scope, src, dst, f.loc(n)),
                        sample={'scope': scope, 'conversion': '%s -> %s' % (src, dst), 'kind': n['ck']} if dst == 'double' else None)
         if not n_casts:
-            rep.ok('R1.1', '%s|no conversion|%s' % (strip_targs(f.q).replace('BitSerializer::', ''), f.id.split('|')[-1][:60]), nontrivial=False)
+            rep.ok(rule, '%s|no conversion|%s' % (strip_targs(f.q).replace('BitSerializer::', ''), f.id.split('|')[-1][:60]), nontrivial=False)
+
+
+
+def run(prog, rep):
+    rep.rule('R1.1', 'save paths: the parameter "value" of every archive-scope SerializeValue / SaveValue reaches the back end through '
+                     'value-preserving conversions only', floor=20)
+    rep.rule('R1.2', 'LoadObject / SaveObject: context(options) -> archive(data, context) -> SplitAndSerialize -> Finalize -> OnFinishSerialization, '
+                     'unconditional and in this order', floor=8)
+    rep.rule('R1.3', 'XML adapter: the load side accepts an element without children as the empty value of the requested kind '
+                     '(string, array, object) - the shape the save side emits for it', floor=5)
+    rep.rule('R1.4', 'MsgPack: every first byte a write overload can emit has an accepting path in the read method of the same type, both readers', floor=150)
+    rep.rule('R1.5', 'JSON adapter: Accept() results are consumed; ParseStream over AutoUTFInputStream names AutoUTF as source encoding; writers use the target encoding of their stream', floor=9)
+
+    check_save_conversions(prog, rep)
 
     # ---------------------------------------------------------------- R1.2
     seen = 0
